@@ -3,6 +3,7 @@ package syslwrapper
 
 import (
 	"fmt"
+	"github.com/anz-bank/sysl/pkg/utils"
 	"strings"
 
 	"github.com/anz-bank/sysl/pkg/sysl"
@@ -441,8 +442,10 @@ func (am *AppMapper) MapType(t *sysl.Type) *Type {
 	case *sysl.Type_Enum_:
 		simpleType = "enum"
 		enum = make(map[int64]string)
-		for str, index := range t.GetEnum().GetItems() {
-			enum[index] = str
+		// in name order: of two names with the same value the last one stays
+		enumItems := t.GetEnum().GetItems()
+		for _, str := range utils.OrderedKeys(enumItems) {
+			enum[enumItems[str]] = str
 		}
 	case *sysl.Type_Set:
 		simpleType = "set"
